@@ -60,11 +60,23 @@ def named(x, suffix="s"):
 
 def untouched():
     return "constant"
+
+def weight():
+    return 7
+
+def sort_key(x):
+    return -x
+
+def neg(x):
+    return 0 - x
+
+def combine(a, w=1):
+    return a * w
 ''',
     "pipe.py": '''
 import dds
 from . import helpers
-from .helpers import scaled as sc
+from .helpers import scaled as sc, sort_key as skey
 from . import consts
 from .consts import FLAG as FLAG_D, PAIR as PAIR_D, NOTHING as NOTHING_D, ITEMS as ITEMS_D, CONF as CONF_D, NAME as NAME_D
 import extmod
@@ -95,6 +107,14 @@ def leaf_direct():
     CALLS.append("leaf_direct")
     return (FLAG_D, PAIR_D, NOTHING_D, ITEMS_D, CONF_D, NAME_D)
 
+def leaf_kw():
+    CALLS.append("leaf_kw")
+    return helpers.combine(2, w=helpers.weight()), sorted([1, 3, 2], key=skey)
+
+def leaf_href():
+    CALLS.append("leaf_href")
+    return list(map(helpers.neg, [1, 2]))
+
 def leaf_ext():
     CALLS.append("leaf_ext")
     return extmod.ext_fun(2)
@@ -121,6 +141,8 @@ def root():
     out["flag"] = dds.keep("/c/flag", leaf_flag)
     out["pair"] = dds.keep("/c/pair", leaf_pair)
     out["direct"] = dds.keep("/c/direct", leaf_direct)
+    out["kw"] = dds.keep("/c/kw", leaf_kw)
+    out["href"] = dds.keep("/c/href", leaf_href)
     out["ext"] = dds.keep("/c/ext", leaf_ext)
     out["args"] = dds.keep("/c/args", with_args, 1, c="y")
     out["rt"] = dds.keep("/c/rt", with_runtime, out["scaled"])
@@ -133,7 +155,7 @@ def ext_fun(x):
     return x * 100
 '''
 
-ALL = ["/c/plain", "/c/scaled", "/c/items", "/c/flag", "/c/pair", "/c/direct", "/c/ext", "/c/args", "/c/rt", "/c/ann_root", "/c/annotated"]
+ALL = ["/c/plain", "/c/scaled", "/c/items", "/c/flag", "/c/pair", "/c/direct", "/c/kw", "/c/href", "/c/ext", "/c/args", "/c/rt", "/c/ann_root", "/c/annotated"]
 # edits: (name, file, old, new, kept paths whose cone contains the edit [besides the root], value must change for these)
 EDITS = [
     ("callee body (transitive)", "corp/helpers.py", "return 10", "return 11", ["/c/scaled", "/c/rt"]),
@@ -147,6 +169,9 @@ EDITS = [
     ("own body", "corp/pipe.py", 'return "%s/%s/%s" % (a, b, c)', 'return "%s|%s|%s" % (a, b, c)', ["/c/args", "/c/rt"]),
     ("literal keyword argument", "corp/pipe.py", 'with_args, 1, c="y")', 'with_args, 1, c="w")', ["/c/args", "/c/rt"]),
     ("default of a helper parameter", "corp/helpers.py", 'suffix="s"', 'suffix="t"', ["/c/annotated"]),
+    ("callee called only inside a keyword-argument value", "corp/helpers.py", "return 7", "return 9", ["/c/kw", "/c/rt"]),
+    ("function referenced only as a keyword-argument value", "corp/helpers.py", "return -x", "return x", ["/c/kw", "/c/rt"]),
+    ("function referenced through a module attribute", "corp/helpers.py", "return 0 - x", "return 1 - x", ["/c/href", "/c/rt"]),
     ("unused variable", "corp/consts.py", "UNUSED = 10", "UNUSED = 11", []),
     ("unrelated definition added", "corp/helpers.py", "def untouched():", "def brand_new():\n    return 0\n\ndef untouched():", []),
     ("non-accepted module body", "extmod.py", "return x * 100", "return x * 200", []),
@@ -154,6 +179,9 @@ EDITS = [
 # which kept paths read the edited variable only through a module attribute (consts.X) / with an untracked value type
 ATTR_READERS = {"str variable": ["/c/annotated"], "list variable": ["/c/items"], "dict variable": ["/c/items"], "bool variable": ["/c/flag"], "tuple variable": ["/c/pair"], "None variable": ["/c/pair"]}
 UNTRACKED_TYPES = {"bool variable", "tuple variable", "None variable"}
+# a function that is referenced (not called) through a module attribute (helpers.neg) is not discovered: nothing tracks the
+# edit, so the later sibling /c/rt (whose call-site context would carry it) is stale for the same reason
+FUN_ATTR_READERS = {"function referenced through a module attribute": ["/c/href", "/c/rt"]}
 KNOWN_EDIT_CLASSES = {}
 
 RUNNER = r'''
@@ -268,7 +296,7 @@ def edit(d, rel, old, new):
     shutil.rmtree(os.path.join(os.path.dirname(p), "__pycache__"), ignore_errors=True)
 
 
-FUN_OF = {"/c/direct": "leaf_direct", "/c/plain": "leaf_plain", "/c/scaled": "leaf_scaled", "/c/items": "leaf_items", "/c/flag": "leaf_flag", "/c/pair": "leaf_pair", "/c/ext": "leaf_ext", "/c/args": "with_args", "/c/rt": "with_runtime", "/c/annotated": "annotated", "/c/ann_root": "root"}
+FUN_OF = {"/c/kw": "leaf_kw", "/c/href": "leaf_href", "/c/direct": "leaf_direct", "/c/plain": "leaf_plain", "/c/scaled": "leaf_scaled", "/c/items": "leaf_items", "/c/flag": "leaf_flag", "/c/pair": "leaf_pair", "/c/ext": "leaf_ext", "/c/args": "with_args", "/c/rt": "with_runtime", "/c/annotated": "annotated", "/c/ann_root": "root"}
 
 
 def main():
@@ -322,11 +350,13 @@ def main():
                             c = "variable_read_through_module_attribute"
                         elif p == "/c/direct" and name in UNTRACKED_TYPES:
                             c = "untracked_variable_type"
+                        elif p in FUN_ATTR_READERS.get(name, []):
+                            c = "function_referenced_through_module_attribute"
                         else:
                             c = None
                         note(c, "[%s] the signature of %s did not change although the edit is in its dependency cone (stale result served)" % (name, p))
                     if after["value"] != plain["value"] and name != "non-accepted module body":  # untracked by design (C14)
-                        cs = {("variable_read_through_module_attribute" if p in ATTR_READERS.get(name, []) else "untracked_variable_type" if (p == "/c/direct" and name in UNTRACKED_TYPES) else None) for p in stale}
+                        cs = {("variable_read_through_module_attribute" if p in ATTR_READERS.get(name, []) else "untracked_variable_type" if (p == "/c/direct" and name in UNTRACKED_TYPES) else "function_referenced_through_module_attribute" if p in FUN_ATTR_READERS.get(name, []) else None) for p in stale}
                         c = None if (None in cs or not cs) else sorted(cs)[0]
                         note(c, "[%s] dds returns %s, plain execution of the edited code gives %s" % (name, after["value"][:160], plain["value"][:160]))
                 else:
